@@ -24,6 +24,12 @@ class LedgerObs(Observer):
         for a in reactor.assemblies:
             mcp += a.flow_rate * a.active_region.coolant.heat_capacity
         self.SEt = 4.0 * max(ptot, mcp * 10.0, 1.0)
+        if case is not None and case.get('_power_scale') and ptot > 0.0:
+            # power-only cases (C03, very small absolute powers): the quantum
+            # follows the assigned power itself, so that the power clauses
+            # are not vacuous below 1 W (seed C03-14); the energy clauses of
+            # such a case are roundoff of m cp dT and are not C03's
+            self.SEt = 4.0 * ptot
         self.SEs = self.SEt / R_TOT
         self.H = np.zeros(n)     # running totals (double)
         self.Q = np.zeros(n)
